@@ -364,9 +364,16 @@ def storeScope (p : Option Policy) (cs : Option Prefix) (respOpts : Option (List
     | some rs => normScope (some (clampScope p rs (some c)))
     | none => none
 
-/-- the entry `WriteMsg` → `SetFromResponseScoped` / `SetFromResponseWithKey` creates. -/
+/-- how `dnsutil.ClassifyResponse` files a cacheable response; all four take the
+same branch of `Store.setFromResponseWithKey` (`case TypeSuccess, TypeReferral,
+TypeNXDomain, TypeNoRecords`), so none of them may escape the scoped cap. -/
+inductive RespKind | success | referral | nxdomain | nodata
+deriving Repr, DecidableEq
+
+/-- the entry `WriteMsg` → `SetFromResponseScoped` / `SetFromResponseWithKey` creates
+(`ttl` = the response's own lifetime: min RR TTL, for denials min(SOA TTL, SOA MINIMUM)). -/
 def storeEntry (p : Option Policy) (cs : Option Prefix) (respOpts : Option (List Opt))
-    (qid : Nat) (cd : Bool) (ttl cap ans : Nat) : Entry :=
+    (qid : Nat) (cd : Bool) (ttl cap ans : Nat) (_kind : RespKind := .success) : Entry :=
   let sc := storeScope p cs respOpts
   { qid := qid, cd := cd, scope := sc, ttl := capTTL sc.isSome cap ttl, ans := ans }
 
@@ -418,6 +425,13 @@ parent's context. -/
 def childView (parent : ReqView) (cd optEcs scopeValid : Bool) : ReqView :=
   { cd := cd, optEcs := optEcs, markEcs := parent.hasECS, treeBypass := parent.bypass, scopeValid := scopeValid }
 
+/-- whether edns pins the client-ECS marker on the request tree: `hasClientECS`
+on the decoded path, `Request.HasECS` (the `hasECS` fact of `parseWireOPT`) on
+the wire path — ANY subnet option counts, whatever its family, netmask or
+address (family 0 / netmask 0, as `dig +subnet=0` sends, included), and
+whatever the forwarding policy then does with it. -/
+def ednsMarks (clientOpts : Option (List Opt)) : Bool := hasEcs clientOpts
+
 /-- the view of the client's own request at the cache: edns marked the context
 iff the client sent a subnet option (whatever the policy then did to it). -/
 def rootView (clientSentEcs cd : Bool) (optEcsAfterEdns scopeValid : Bool) : ReqView :=
@@ -428,5 +442,22 @@ sub-queries (alias chases, internal look-ups), each a fresh message with
 arbitrary CD / option / scope state under its parent's context. -/
 def descend (root : ReqView) (path : List (Bool × Bool × Bool)) : ReqView :=
   path.foldl (fun v m => childView v m.1 m.2.1 m.2.2) root
+
+/-! ### background refresh of an entry (prefetch) -/
+
+/-- the address every internal sub-pipeline writer reports (`127.0.0.255`). -/
+def internalAddr : Addr := ⟨.v4, 0x7f0000ff⟩
+
+/-- options on the refresh query that reaches upstream: the queued copy of the
+triggering client's request (as the cache saw it, i.e. after edns) runs through
+edns again in the prefetch sub-pipeline, now with the internal writer as client. -/
+def refreshForwarded (p : Option Policy) (queuedReqOpts : List Opt) : List Opt :=
+  setEdns0 p (some internalAddr) queuedReqOpts
+
+/-- `Store.ReplaceIfCurrent`: the replacement takes over the key, CD partition and
+scope of the entry that claimed the refresh; the response's own SCOPE is not read
+and the scoped cap is not applied. -/
+def refreshEntry (expected : Entry) (ttl ans : Nat) : Entry :=
+  { expected with ttl := ttl, ans := ans }
 
 end SdnsVerif.Model.Ecs
